@@ -455,14 +455,15 @@ where
         changes.sort_unstable_by_key(|&(id, _)| id);
 
         for &(&id, &(ref primitive, gen)) in changes.iter() {
-            let pos = self.backend.len();
+            // offsets in the file are relative to the header position (the reader adds start_offset)
+            let pos = self.backend.len() - self.start_offset;
             self.refs.set(id, XRef::Raw { pos: pos as _, gen_nr: gen });
             writeln!(self.backend, "{} {} obj", id, gen)?;
             primitive.serialize(&mut self.backend)?;
             writeln!(self.backend, "endobj")?;
         }
 
-        let xref_pos = self.backend.len();
+        let xref_pos = self.backend.len() - self.start_offset;
         self.refs.set(xref_promise.get_inner().id, XRef::Raw { pos: xref_pos, gen_nr: 0 });
         // only write up to the xref stream obj id
         let stream = self.refs.write_stream(xref_promise.get_inner().id as usize + 1)?;
